@@ -1440,12 +1440,24 @@ func (e *FEnc) mergeStates(b *ssa.BasicBlock, es []inEdge) (*State, []string) {
 			if okAll {
 				st.lastRes[k] = e.mergeVals(cs, vs, "lastres")
 			} else {
-				// keep the value of the paths that have one; guarded by called() in clauses
+				// some paths made no such call: the "last result" is arbitrary there (clauses guard it by called());
+				// on the paths that made one it is that path's value
+				var proto *Val
 				for _, ed := range es {
 					if v, ok := ed.state.lastRes[k]; ok {
-						st.lastRes[k] = v
+						proto = v
 					}
 				}
+				vs, cs = nil, nil
+				for i, ed := range es {
+					v, ok := ed.state.lastRes[k]
+					if !ok {
+						v = e.arbitraryLike(proto)
+					}
+					vs = append(vs, v)
+					cs = append(cs, conds[i])
+				}
+				st.lastRes[k] = e.mergeVals(cs, vs, "lastres")
 			}
 		}
 	}
@@ -2051,6 +2063,7 @@ func (e *FEnc) sentinelFacts(gv *types.Var, nm string) {
 		}
 		e.factDone["sentinel:"+nm] = true
 		e.fact(not(eq(nm, "nil_iface")))
+		e.fact(fmt.Sprintf("(= (tagof %s) %d)", nm, e.d.tagOfName("*errors.errorString")))
 		for _, o := range sentinelErrors {
 			if o == full {
 				continue
@@ -2074,6 +2087,18 @@ func (e *FEnc) globalInitFact(gv *types.Var, nm string) {
 	fn := e.eng.prog.FuncValue(ic.fn)
 	if fn == nil {
 		return
+	}
+	if fn.String() == "errors.New" && !e.factDone["sentinel:"+nm] {
+		// a package-level `var X = errors.New(...)` of the repository: its own allocation, so non-nil, of the
+		// errors package's string-error type and different from the library's sentinels
+		e.factDone["sentinel:"+nm] = true
+		e.fact(not(eq(nm, "nil_iface")))
+		e.fact(fmt.Sprintf("(= (tagof %s) %d)", nm, e.d.tagOfName("*errors.errorString")))
+		for _, o := range sentinelErrors {
+			on := "G_" + mangle(o)
+			e.d.add("c:"+on, fmt.Sprintf("(declare-const %s Iface)", on))
+			e.fact(not(eq(nm, on)))
+		}
 	}
 	fc := e.eng.contractOf(fn)
 	if fc == nil || !fc.Pure {
@@ -2363,4 +2388,25 @@ func (e *FEnc) readOnlyCapture(a *AllocInfo) bool {
 	}
 	e.roCapture[a.Instr] = ok
 	return ok
+}
+
+// arbitraryLike: a fresh unconstrained value of the same shape as v.
+func (e *FEnc) arbitraryLike(v *Val) *Val {
+	if v == nil {
+		return nil
+	}
+	if v.Tup != nil {
+		n := &Val{Ty: v.Ty, Sort: v.Sort}
+		for _, t := range v.Tup {
+			n.Tup = append(n.Tup, e.arbitraryLike(t))
+		}
+		return n
+	}
+	if v.Ty != nil {
+		return e.newVal(v.Ty, "nores")
+	}
+	if v.T != "" && v.Sort != "" {
+		return &Val{Sort: v.Sort, T: e.fresh("nores", v.Sort)}
+	}
+	return v
 }
